@@ -258,7 +258,7 @@ def _pair_strategy(kind):
     if kind == 'multi':
         return st.tuples(st.integers(0, len(LABELS) - 1), st.integers(0, len(LABELS) - 1))
     if kind == 'dict':
-        probs = st.lists(st.tuples(st.integers(0, len(LABELS) - 1), st.sampled_from([0.1, 0.2, 0.5, 0.7, 1.0, 0.05])).map(list),
+        probs = st.lists(st.tuples(st.integers(0, len(LABELS) - 1), st.sampled_from([0.1, 0.2, 0.5, 0.7, 1.0, 0.05, 0.0, 0.0])).map(list),
                          min_size=1, max_size=4, unique_by=lambda kv: kv[0])
         return st.tuples(st.integers(0, len(LABELS) - 1), probs)
     raise ValueError(kind)
